@@ -174,6 +174,21 @@ def run_case(case, acc):
     with vk:
         ps.process_iter.cache_clear()
         ps.boot_time()
+        if case.get("before"):
+            # an earlier state of the table (older incarnations of some pids) is seen by process_iter() first, so
+            # that psutil's own caches hold Process objects of processes which have since been replaced
+            for pid in list(t.procs):
+                t.procs.pop(pid)
+            for pid, (pp, st) in sorted((int(k), tuple(v)) for k, v in case["before"].items()):
+                t.spawn(pid, st, ppid=pp, comm=b"o%d" % pid)
+            list(ps.process_iter())
+            acc.count("warm_cache_cases")
+            for pid in list(t.procs):
+                t.procs.pop(pid)
+            for pid in sorted(procs):
+                pp, st = procs[pid]
+                t.spawn(pid, st, ppid=pp, comm=b"p%d" % pid)
+            feats.add("stale_process_iter_cache")
         pr = ps.Process(caller)
         if case.get("recycle"):
             # the caller exits; its pid is taken by a younger process
@@ -241,6 +256,12 @@ def run_case(case, acc):
             else:
                 want2 = ref_children(after, caller, rec) if caller in after else set()
                 lo, hi = want & want2, want | want2
+                # documented: "if process X disappears process Y won't be listed as the reference to process A is lost":
+                # what hangs below the victim in the table as it was before may legitimately be missing
+                victim = case["vanish"][0]
+                if victim in before and victim != caller:
+                    below = ref_children({k: (v[0], 0) for k, v in before.items()}, victim, True)
+                    lo = lo - below
                 if not (lo - {case["vanish"][0]} <= gset | {case["vanish"][0]} and gset <= hi):
                     viols.append((f"{name}_wrong:midwalk_vanish", ctx + f" got={sorted(gset)} before={sorted(want)} after={sorted(want2)}"))
                 # restore the table for the next call
@@ -315,6 +336,12 @@ def gen_random(rng):
             st = base + rng.randrange(0, 6) * (1 if style == "cyclic" else 10)
         procs[str(p)] = [pp, st]
     case = dict(procs=procs, caller=rng.choice(pids))
+    if rng.random() < 0.3:
+        before = {k: list(v) for k, v in procs.items()}
+        for k in rng.sample(sorted(before), rng.randrange(1, min(4, len(before)) + 1)):
+            # an older incarnation of that pid (it died and the pid was re-used by the process in `procs`)
+            before[k] = [rng.choice([before[k][0], 0, int(rng.choice(sorted(before)))]), max(1, before[k][1] - rng.choice([1, 40, 90]))]
+        case["before"] = before
     r = rng.random()
     if r < 0.2:
         case["vanish"] = [rng.choice(pids), rng.randrange(0, 3 * n + 2)]
@@ -345,6 +372,12 @@ def run_shard(shard):
                 run_case(case, acc)
         # recycled caller on every small graph shape is covered by the random part; add a few fixed ones
         if shard["part"] == 0:
+            for case in [dict(procs={"1": [0, 1], "50": [1, 300], "60": [50, 200]}, caller=60, before={"1": [0, 1], "50": [1, 100], "60": [50, 200]}),
+                         dict(procs={"1": [0, 1], "50": [1, 150], "60": [50, 200]}, caller=60, before={"1": [0, 1], "50": [1, 100], "60": [50, 200]}),
+                         dict(procs={"1": [0, 1], "50": [1, 300], "60": [50, 200], "70": [60, 400]}, caller=70,
+                              before={"1": [0, 1], "50": [1, 100], "60": [50, 200]}),
+                         dict(procs={"1": [0, 1], "5": [1, 100], "6": [5, 300]}, caller=5, before={"1": [0, 1], "5": [1, 100], "6": [5, 50]})]:
+                run_case(case, acc)
             for case in [dict(procs={"1": [0, 1], "5": [1, 100], "6": [5, 200]}, caller=5, recycle=True),
                          dict(procs={"1": [0, 1], "5": [6, 100], "6": [5, 200]}, caller=5, recycle=True)]:
                 run_case(case, acc)
